@@ -105,6 +105,8 @@ def prim[Node](
     if not graph:
         return Result([], 0.0, 0, 0)
 
+    graph = {node: list(adjacent) for node, adjacent in graph.items()}  # adjacency may be a one-shot iterable
+
     nodes = set(graph.keys())
     for neighbors in graph.values():
         for neighbor, _ in neighbors:
